@@ -352,6 +352,7 @@ def run_check(mod, tier, seed):
     fails = {}
     exhaustive = {}
     budget_exhausted = False
+    fail_shard = {}
     for r in results:
         nontrivial |= r['nontrivial']
         classes.update(r['classes']); flags.update(r['flags']); excluded.update(r['excluded'])
@@ -360,6 +361,8 @@ def run_check(mod, tier, seed):
         budget_exhausted |= r['budget_exhausted']
         for b, lst in r['fails'].items():
             fails.setdefault(b, []).extend(lst)
+            for case, _ in lst:
+                fail_shard[id(case)] = r['index']
     # round-robin samples across shards
     i = 0
     while len(samples) < 8 and any(len(r['samples']) > i for r in results):
@@ -372,6 +375,7 @@ def run_check(mod, tier, seed):
     exclusions = getattr(mod, 'EXCLUSIONS', {})
     open_ids = {f['id'] for f in open_findings}
     unconfirmed = 0
+    history_tried = set()
     for bucket in sorted(fails):
         lst = fails[bucket]
         reported = False
@@ -397,9 +401,24 @@ def run_check(mod, tier, seed):
             path = write_replay(prop, case, detail, tag=bucket)
             still, out = replay_in_subprocess(prop, path)
             if not still:
+                os.unlink(path)
+                # the case alone does not fail in a fresh process.  Where the process history is part of what the property
+                # quantifies over (module opt-in), the failing *history* is the shard's generated sequence: re-run that shard
+                # from its seed in a fresh process and see whether the same bucket fails again (once per bucket).
+                if getattr(mod, 'HISTORY_CONFIRM', False) and bucket not in history_tried and id(case) in fail_shard:
+                    history_tried.add(bucket)
+                    idx = fail_shard[id(case)]
+                    hcase = {'__shard__': dict(tier=tier, seed=seed, index=idx, nshards=nshards, params=plan[idx]), 'bucket': bucket,
+                             'example_case': jsonable(case)}
+                    path = write_replay(prop, hcase, detail, tag='history-' + bucket)
+                    still, out = replay_in_subprocess(prop, path, timeout=max(300, int(budget) * 2))
+                    if still:
+                        violations.append((path, 'history:' + bucket, detail))
+                        reported = True
+                        continue
+                    os.unlink(path)
                 unconfirmed += 1
                 notes.setdefault('unconfirmed', []).append(dict(bucket=bucket, detail=json.dumps(jsonable(detail))[:400]))
-                os.unlink(path)
                 continue
             if tier == 'thorough' or os.environ.get('VF_SHRINK', '1') == '1':
                 small = shrink(mod, case, bucket, 45 if tier == 'quick' else 180)
@@ -466,6 +485,20 @@ def write_replay(prop, case, detail, tag=''):
 def run_replay(mod, path):
     data = json.loads(Path(path).read_text())
     case = data['case'] if 'case' in data else data
+    if isinstance(case, dict) and '__shard__' in case:
+        # a failing history: the shard's generated sequence, re-run from its seed
+        sp = case['__shard__']
+        r = _worker((mod.__name__, sp['tier'], sp['seed'], sp['index'], sp['nshards'], time.time() + 3600, sp['params']))
+        if 'harness_error' in r:
+            print(f'HARNESS-ERROR replaying shard history:\n{r["harness_error"]}')
+            return 2
+        hits = r['fails'].get(case['bucket'])
+        if not hits:
+            print(f'replay {path}: the recorded bucket did not fail in this shard history')
+            return 0
+        print(f'VIOLATION property={mod.PROPERTY} replay={path}')
+        print('   ', case['bucket'], json.dumps(jsonable(hits[0][1]))[:1500])
+        return 1
     d = safe_replay(mod, case, 60)
     if d is None:
         print(f'replay {path}: property holds on this case')
